@@ -353,6 +353,28 @@ func shapedScenario(g *Gen, which int) Case {
 		t.link(VB+"/export/packages/"+victim, VB+"/layers/"+victim+"/packages")
 		t.link(VB+"/export/generated/"+victim, VB+"/layers/"+victim+"/generated")
 		steps = []interface{}{cmd("probe"), obj("cmd", "remove", "args", hxs([]string{victim}), "files", which == 24), cmd("probe")}
+	case 25:
+		// a stale link where an export link belongs (recorded finding
+		// export-entry-foreign-or-stale of C16: mount leaves it as it is); seen by every run
+		for _, l := range []glayer{{name: "b0", imports: imports}} {
+			genLayerTree(g, t, l, pf, false)
+		}
+		t.dir(VB + "/layers/b0/packages")
+		t.dir(VB + "/export/packages")
+		t.link(VB+"/export/packages/b0", "/somewhere/else")
+		steps = []interface{}{cmd("mount", "b0"), cmd("probe"), umountAll(), cmd("probe")}
+	case 26:
+		// a non-bind import whose mountpoint carries a bind made by hand from the configured
+		// source string: layercake compares the source, not the file-system type, takes it for
+		// the import and reports success (recorded finding nonbind-import-fstype-not-compared
+		// of C01 and C08); seen by every run
+		imps := append(append([]string{}, imports...), "import tmpfs "+VB+"/hostsrc /mnt/tmp")
+		for _, l := range []glayer{{name: "b0", imports: imps}} {
+			genLayerTree(g, t, l, pf, false)
+		}
+		t.dir(VB + "/layers/b0/build/mnt/tmp")
+		byHand := obj("cmd", "sysmount", "args", hxs([]string{VB + "/hostsrc", VB + "/layers/b0/build/mnt/tmp", "bind"}), "flags", float64(4096))
+		steps = []interface{}{byHand, cmd("probe"), cmd("mount", "b0"), cmd("probe"), umountAll(), cmd("probe")}
 	default:
 		// export directory names that differ from the layer's own directory names, explicit
 		// export directives, then rename and remove
@@ -371,7 +393,7 @@ func shapedScenario(g *Gen, which int) Case {
 
 func init() {
 	register("scn-directed", func(g *Gen, tier string, emit func(Case)) {
-		for w := 0; w < 25; w++ {
+		for w := 0; w < 27; w++ {
 			emit(shapedScenario(g, w))
 		}
 		// a derived layer mounted, listed and unmounted (history 4), and the export-link history
